@@ -222,7 +222,8 @@ class _ConfusionMatrix:
     if average is None or average in ('micro', 'binary'):
       return result
     elif average == 'macro':
-      return np.mean(result, axis=0)
+      # Classes are the last axis, the top-k matrices are of shape K x Classes.
+      return np.mean(result, axis=-1)
     else:
       raise NotImplementedError(f'"{average}" average is not supported.')
 
